@@ -103,6 +103,17 @@ DIRECTED = [
     ([("from geo.pts import Point", "K"), ("from shapes import Circle", "K")], ["area_of", "origin"], 0),
     # hand-written stub `import shapes` + dotted annotation: libcst adds `from shapes import Circle` (kf_apply_extra_rebind)
     ([("from other import Circle", "t")], ["area_of"], 0, {"alias": "module"}),
+    # run-time imports inside module-level with / for / while / try-else / try-finally bodies
+    ([("from shapes import Circle", "W")], ["area_of"], 0),
+    ([("from shapes import Circle", "l"), ("from geo.pts import Point", "H")], ["area_of", "origin"], 0),
+    ([("from shapes import Circle", "w"), ("from geo.pts import Point", "L"), ("from typings import Payload", "h")],
+     ["area_of", "origin", "payload"], 0),
+    ([("from shapes import Circle", "T"), ("from geo.pts import Point", "U")], ["area_of", "origin"], 0),
+    # an explicit import followed by a star import of the same module (libcst collapses object_mapping to {"*"}; the
+    # symbol mapping keeps the explicit item), also with an unrelated star import in between
+    ([("from shapes import Circle", "t"), ("from shapes import *", "m")], ["area_of"], 0),
+    ([("from shapes import Square, Circle", "t"), ("from typing import *", "t"), ("from shapes import *", "m")],
+     ["area_of", "pick"], 0),
     # several small statements on one line
     ([("from shapes import Circle", "S")], ["area_of"], 0),
     ([("import os", "t"), ("from geo.pts import Point", "S"), ("from shapes import Square", "S")], ["origin", "pick"], 0),
@@ -356,16 +367,16 @@ def run(ctx):
     failures.sort(key=lambda f: (1 if f.get("finding") else 0))
     return {
         "evaluations": len(cases), "distinct_nontrivial": len(nontrivial),
-        "rule": "48 directed witnesses (the design-phase defects and their neighbours), then random sources: optional docstring / "
+        "rule": "54 directed witnesses (the design-phase defects and their neighbours), then random sources: optional docstring / "
                 "__future__ import, 0-5 import statements from a 32-entry pool (import a.b, aliases, star, typing, "
                 "mypy_extensions, clashing names) placed at the top, after a statement, in a function, under an existing "
-                "TYPE_CHECKING block (also aliased), in try/except, in one-line try / def / if suites, in TYPE_CHECKING blocks local to a function or class body, on `;`-joined lines (those cases are compared with the specification only, not with the model), or in the else / elif branch of the TYPE_CHECKING statement; a quarter of the targets are modules of a package and also use relative imports (from .m / .. / .a.b) whose tails coincide with the stub's absolute modules; 1-3 functions whose stub is rendered by MonkeyType's own "
+                "TYPE_CHECKING block (also aliased), in try/except, in one-line try / def / if suites, in module-level with / for / while / try-else / try-finally bodies (blocks and one-line suites), in TYPE_CHECKING blocks local to a function or class body, on `;`-joined lines (those cases are compared with the specification only, not with the model), or in the else / elif branch of the TYPE_CHECKING statement; a quarter of the targets are modules of a package and also use relative imports (from .m / .. / .a.b) whose tails coincide with the stub's absolute modules; 1-3 functions whose stub is rendered by MonkeyType's own "
                 "build_module_stubs_from_traces (k in {0,5}) or, for ~10%, hand-written with aliased imports (from a import b as c, import a.b as d) or plain module imports (import a.b); every case goes through the real apply step, "
                 "get_newly_imported_items and apply_stub_using_libcst(..., True); verdict in Coq; then source and result are "
                 "imported in fresh interpreters and run() compared; the results of all directed and a quarter of the random "
                 "cases are then the source of a second application of the same stub (re-application stream). non-trivial = the stub brings a newly imported item and "
                 "the source has an import; distinct by hash of the reified case",
-        "samples": [{"source": c["source"], "stub": c["stub"], "output": c["output"]} for c in cases[48:51]],
+        "samples": [{"source": c["source"], "stub": c["stub"], "output": c["output"]} for c in cases[54:57]],
         "distribution": dist, "failures": failures, "mismatches": mismatches,
         "relation": "module_eqb (confine stub src applied) out  /\\  set_eqb (newly stub src) impl_newly",
     }
